@@ -265,7 +265,10 @@ func main() {
 					a = r.Range(-20, 40)
 					b = a + r.Range(0, 8)
 				}
-				if a > b && !r.Chance(3) {
+				// only valid intervals: after an invalid one (mint > maxt) the stored list is unsorted and
+				// the behaviour of Add depends on the search strategy — outside the property's statement,
+				// and a harmless refactoring (linear instead of binary search) would raise an alarm.
+				if a > b {
 					a, b = b, a
 				}
 				ref := h.Pick(r, myrefs)
